@@ -68,6 +68,7 @@ func C07(p *core.Prog, r *core.Report) {
 	r.Rule("PANIC", "every explicit panic(...) statement in a function reachable from the parser entry points is in the reviewed table of panics whose condition input text cannot reach (one reason per function)", 2)
 	r.Rule("IDX", "every index and slice expression the Go compiler's prove pass cannot show in bounds (its bounds-check-elimination report, inlining off) inside code reachable from the parser entry points is discharged by a dominating length guard, the post-condition of an index search (IndexByte/Index), a range key over a collection of the same length, n = len(s)/2 on a non-empty s, or a reviewed layout/shape argument with a fixed site count; constant children of a pars.Result are determined by the parser's shape and excluded", 20)
 	r.Rule("NN", "every count handed to strings.Repeat, bytes.Repeat, make and (*pars.State).Request in parser-reachable code is non-negative: constants, len/cap/copy, sums and products of non-negatives, quotients by positive constants, values on the false side of a dominating `x < 0` test or after a clamp, parameters and captured variables all of whose bindings are non-negative (calls through function values resolved by signature), struct fields all of whose writes are non-negative, and results of functions that are non-negative whenever their arguments are", 12)
+	r.Rule("OVERFLOW", "side condition of NN: a count that is a sum or product involving an integer parsed from the input (a type-asserted parser result, as opposed to a len/cap/constant) is dominated by a guard that bounds that integer above by a constant <= 2^40, so the arithmetic cannot wrap to a negative count", 10)
 	r.Rule("REQ-ERR", "the error of every (*pars.State).Request in parser-reachable code is tested and returned before the buffer is used (a failed Request leaves a short buffer)", 6)
 	r.Rule("REQ-ADV", "every (*pars.State).Advance is preceded on every path by a Request (or pars.Next) whose error was tested nil, with no other Advance in between (Advance panics without a pending Request)", 10)
 	r.Rule("RES", "wherever a parser is run through Parse(...) the (Result, error) pair's error is tested and returned before the result is read", 3)
@@ -189,6 +190,13 @@ func runTraps(p *core.Prog, r *core.Report, reach map[*ssa.Function]bool, parser
 					key := fmt.Sprintf("%s|count#%d", label, nnN[label])
 					if t.nn.NN(count, c) {
 						r.Ok("NN", key, p.Pos(c.Pos()), fmt.Sprintf("%s `%s` is non-negative", what, types.ExprString(count)))
+						if parser {
+							if t.nn.Bounded(count, c) {
+								r.Ok("OVERFLOW", key, p.Pos(c.Pos()), fmt.Sprintf("%s `%s` is computed from lengths, constants and input numbers that a guard bounds: the size arithmetic cannot overflow", what, types.ExprString(count)))
+							} else {
+								r.Bad("OVERFLOW", key, p.Pos(c.Pos()), fmt.Sprintf("%s `%s` is computed from a number read from the input that nothing bounds above: for a huge value the multiplication wraps to a negative count and make/Request/Repeat (or the slice behind it) panics", what, types.ExprString(count)))
+							}
+						}
 					} else {
 						r.Bad("NN", key, p.Pos(c.Pos()), fmt.Sprintf("%s `%s` can be negative on malformed input (nothing bounds it below): strings.Repeat/make/Request panic on a negative count", what, types.ExprString(count)))
 					}
